@@ -5,9 +5,9 @@ internal/conf/decrypt/decrypt.go).
 
 What is modelled
 * `decrypt`      : `decrypt.Decrypt` with base64 and secretbox as oracle parameters; the slicing
-                   `enc[:24]`, `enc[24:]` is explicit, a ciphertext shorter than 24 bytes is `.panic`.
-* `envKeyHitsNull`: the decidable class of environment keys for which `env.loadEnvInternal` reaches
-                   `reflect.Value.Addr` of the zero Value (a path whose value is `null` in the file).
+                   `enc[:24]`, `enc[24:]` is explicit and guarded by the length check.
+* `envNilReceiver`: the decidable class of environment keys for which `env.loadEnvInternal` calls
+                   `UnmarshalEnv` on a nil pointer (open finding, modelled exactly in C09).
 * `validate`     : `Conf.Validate` + `Path.validate` on an abstract view `ConfV` of the configuration (every
                    field a check or a deprecated-parameter override looks at). URL/regexp/path-name/MP4
                    validity are oracle booleans carried in the view.
@@ -40,25 +40,26 @@ deriving Repr, DecidableEq
 /-- `copy(secretKey[:], key)` into a zeroed `[32]byte`. -/
 def key32 (key : Bytes) : Bytes := key.take 32 ++ List.replicate (32 - key.length) 0
 
-/-- `decrypt.Decrypt(key, file)`. `b64 = base64.StdEncoding.DecodeString`, `sopen key nonce box =
-secretbox.Open(nil, box, &nonce, &key)`. -/
+/-- `decrypt.Decrypt(key, file)` (as of /repo a83b2fa: with the length check). `b64 =
+base64.StdEncoding.DecodeString`, `sopen key nonce box = secretbox.Open(nil, box, &nonce, &key)`. -/
 def decrypt (b64 : Bytes → Option Bytes) (sopen : Bytes → Bytes → Bytes → Option Bytes)
     (key file : Bytes) : Outcome Bytes :=
   match b64 file with
   | none => .err
   | some enc =>
-    if enc.length < 24 then .panic            -- enc[:24] : slice bounds out of range
-    else match sopen (key32 key) (enc.take 24) (enc.drop 24) with
+    if enc.length < 24 then .err              -- "encrypted content is too short"
+    else match sopen (key32 key) (enc.take 24) (enc.drop 24) with   -- enc[:24], enc[24:]
       | none => .err
       | some p => .ok p
 
-/-- the proposed fix: a length check before slicing. -/
-def decryptFixed (b64 : Bytes → Option Bytes) (sopen : Bytes → Bytes → Bytes → Option Bytes)
+/-- the function BEFORE a83b2fa, kept as the regression record of F-C10: no length check, so `enc[:24]` is a
+slice-bounds panic for a short ciphertext. -/
+def decryptUnchecked (b64 : Bytes → Option Bytes) (sopen : Bytes → Bytes → Bytes → Option Bytes)
     (key file : Bytes) : Outcome Bytes :=
   match b64 file with
   | none => .err
   | some enc =>
-    if enc.length < 24 then .err
+    if enc.length < 24 then .panic
     else match sopen (key32 key) (enc.take 24) (enc.drop 24) with
       | none => .err
       | some p => .ok p
@@ -70,64 +71,28 @@ structure StageCol where
   b64 : Option Bytes
   opened : Option Bytes
 
-def stage (fixed : Bool) : Option StageCol → Outcome Unit
+def stage : Option StageCol → Outcome Unit
   | none => .ok ()
   | some s =>
-    match (if fixed then decryptFixed else decrypt) (fun _ => s.b64) (fun _ _ _ => s.opened) s.key [] with
+    match decrypt (fun _ => s.b64) (fun _ _ _ => s.opened) s.key [] with
     | .ok _ => .ok ()
     | .err => .err
     | .panic => .panic
 
 /-- decryption part of `loadFromFile`: RTSP_CONFKEY first, then MTX_CONFKEY. -/
-def loadDecrypt (fixed : Bool) (rk mk : Option StageCol) : Outcome Unit :=
-  match stage fixed rk with
-  | .ok _ => stage fixed mk
+def loadDecrypt (rk mk : Option StageCol) : Outcome Unit :=
+  match stage rk with
+  | .ok _ => stage mk
   | o => o
 
-/-! ### env: map entry that is a nil pointer -/
+/-! ### env: the one remaining panic of the loader (decidable class of the open finding) -/
 
-def isAsciiUpperTok (t : Bytes) : Bool :=
-  t.all fun c => c < 128 ∧ ¬ (97 ≤ c ∧ c ≤ 122)
-
-def lowerAscii (t : Bytes) : Bytes := t.map fun c => if 65 ≤ c ∧ c ≤ 90 then c + 32 else c
-
-/-- Does `loadEnvInternal` for `map[string]*OptionalPath` under `<prefix>_PATHS` visit an existing entry
-whose pointer is nil because of this key?  (`mapKey` = text up to the next `_`, only upper-case keys,
-looked up lower-cased.)  Restricted to ASCII keys. -/
-def envKeyHitsNull (nullNames : List Bytes) (k : Bytes) : Bool :=
-  [b!"MTX_PATHS_", b!"RTSP_PATHS_"].any fun p =>
-    p.isPrefixOf k &&
-      (let tok := (k.drop p.length).takeWhile (· ≠ 95)
-       !tok.isEmpty && isAsciiUpperTok tok && nullNames.contains (lowerAscii tok))
-
-def envHitsNull (nullNames : List Bytes) (keys : List Bytes) : Bool :=
-  keys.any (envKeyHitsNull nullNames)
-
-/-! ### env: empty list value for an optional (pointer) slice parameter -/
-
-/-- slice-typed parameters of `Path` without an `UnmarshalEnv` (pointers in `OptionalPath`) -/
-def optSliceParams : List Bytes := [b!"RTSPUDPSOURCEPORTRANGE", b!"RPICAMERAAWBGAINS", b!"FORWARD", b!"ALWAYSAVAILABLETRACKS"]
-
-/-- `*[]string` parameters of `Conf` -/
-def optSliceGlobals : List Bytes := [b!"WEBRTCICESERVERS", b!"WEBRTCICEHOSTNAT1TO1IPS"]
-
-/-- Decidable class of the third finding: an environment variable with an EMPTY value that addresses a
-pointer-to-slice parameter (`MTX_PATHS_<NAME>_<slice parameter>` or one of the two deprecated global
-`*[]string` parameters). `loadEnvInternal` then calls `prv.Elem().Set(MakeSlice…)` without the
-`if prv.IsNil() { prv.Set(reflect.New(rt)) }` that the non-empty branch has, so it panics when the
-parameter is not set in the file. -/
-def envEmptyListKey (k v : Bytes) : Bool :=
-  v.isEmpty &&
-  [b!"MTX_", b!"RTSP_"].any fun p =>
-    p.isPrefixOf k &&
-      (let rest := k.drop p.length
-       optSliceGlobals.contains rest ||
-       (b!"PATHS_".isPrefixOf rest &&
-          (let r2 := rest.drop 6
-           let tok := r2.takeWhile (· ≠ 95)
-           !tok.isEmpty && optSliceParams.contains (r2.drop (tok.length + 1)))))
-
-def envEmptyList (kvs : List (Bytes × Bytes)) : Bool := kvs.any fun kv => envEmptyListKey kv.1 kv.2
+/-- `pu` = variable names of optional (pointer) parameters with an `UnmarshalEnv` method that are unset after the
+file has been read. `loadEnvInternal` applies its "some variable has this prefix ⇒ call UnmarshalEnv with the empty
+string" rule to them too and the method dereferences its nil receiver: a variable that merely EXTENDS such a name
+(and the name itself not being set) panics. (Exact model and proposed fix: C09.) -/
+def envNilReceiver (pu keys : List Bytes) : Bool :=
+  pu.any fun n => !keys.contains n && keys.any fun k => n.isPrefixOf k && k != n
 
 /-! ### byte-string helpers (strings.HasPrefix / Contains / Split) -/
 
